@@ -26,43 +26,77 @@ fn run_target(ctx: &Ctx, prop: &'static str, target: &'static str, name: &'stati
         }
     }
     let fuzz_dir = ctx.verif_dir.join("fuzz");
-    let mut cmd = Command::new("cargo");
-    cmd.arg("+nightly")
+    // build once (from /repo's working tree, through the harness's path dependencies) ...
+    let mut build = Command::new("cargo");
+    build
+        .arg("+nightly")
         .arg("fuzz")
-        .arg("run")
+        .arg("build")
         .arg("--fuzz-dir")
         .arg(&fuzz_dir)
         .arg("-s")
         .arg("none")
         .arg(target)
-        .arg(&corpus)
-        .arg("--")
-        .arg(format!("-runs={}", runs))
-        .arg(format!("-seed={}", (ctx.seed % 0x7fff_fffe) + 1))
-        .arg("-max_len=14000")
-        .arg("-len_control=0")
-        .arg("-rss_limit_mb=4096")
-        .arg("-malloc_limit_mb=512")
-        .arg("-print_final_stats=1")
-        .arg(format!("-artifact_prefix={}/", artifacts.display()))
         .env("CARGO_NET_OFFLINE", "true")
         .env_remove("CARGO_TARGET_DIR")
         .current_dir(&fuzz_dir);
-    let out = match cmd.output() {
-        Ok(o) => o,
+    let bin = fuzz_dir.join("target/x86_64-unknown-linux-gnu/release").join(target);
+    match build.output() {
+        Ok(o) if o.status.success() && bin.exists() => {}
+        Ok(o) => {
+            let text = String::from_utf8_lossy(&o.stderr).to_string();
+            let tail: String = text.lines().rev().take(6).collect::<Vec<_>>().join(" | ");
+            ctx.assume(&format!("libFuzzer stage '{}' skipped: fuzz build failed ({})", target, tail.chars().take(300).collect::<String>()));
+            return;
+        }
         Err(e) => {
             ctx.assume(&format!("libFuzzer stage '{}' skipped: cannot start cargo fuzz ({})", target, e));
             return;
         }
-    };
-    let text = format!("{}\n{}", String::from_utf8_lossy(&out.stdout), String::from_utf8_lossy(&out.stderr));
-    let stat = |key: &str| -> u64 {
-        text.lines().rev().find_map(|l| l.split_once(key).and_then(|(_, v)| v.trim().trim_start_matches(':').trim().split_whitespace().next().and_then(|x| x.parse().ok()))).unwrap_or(0)
-    };
-    let executed = stat("stat::number_of_executed_units");
-    if executed == 0 && !out.status.success() && !text.contains("SUMMARY") && !text.contains("panicked") {
+    }
+    // ... then PROCS independent libFuzzer processes on the shared corpus directory, each with
+    // its own seed and `runs` executions
+    const PROCS: u64 = 12;
+    let children: Vec<_> = (0..PROCS)
+        .filter_map(|i| {
+            Command::new(&bin)
+                .arg(&corpus)
+                .arg(format!("-runs={}", runs))
+                .arg(format!("-seed={}", ((ctx.seed.wrapping_mul(PROCS) + i) % 0x7fff_fffe) + 1))
+                .arg("-max_len=14000")
+                .arg("-len_control=0")
+                .arg("-rss_limit_mb=4096")
+                .arg("-malloc_limit_mb=512")
+                .arg("-print_final_stats=1")
+                .arg(format!("-artifact_prefix={}/", artifacts.display()))
+                .current_dir(&work)
+                .stdout(std::process::Stdio::null())
+                .stderr(std::fs::File::create(work.join(format!("fuzz-{}-{}.log", target, i))).map(std::process::Stdio::from).unwrap_or_else(|_| std::process::Stdio::null()))
+                .spawn()
+                .ok()
+                .map(|c| (i, c))
+        })
+        .collect();
+    if children.is_empty() {
+        ctx.assume(&format!("libFuzzer stage '{}' skipped: cannot start the fuzz binary", target));
+        return;
+    }
+    let mut executed = 0u64;
+    let mut text = String::new();
+    for (i, mut ch) in children {
+        if ch.wait().is_ok() {
+            let t = std::fs::read(work.join(format!("fuzz-{}-{}.log", target, i))).map(|b| String::from_utf8_lossy(&b).to_string()).unwrap_or_default();
+            executed += t
+                .lines()
+                .rev()
+                .find_map(|l| l.split_once("stat::number_of_executed_units").and_then(|(_, v)| v.trim().trim_start_matches(':').trim().split_whitespace().next().and_then(|x| x.parse::<u64>().ok())))
+                .unwrap_or(0);
+            text.push_str(&t);
+        }
+    }
+    if executed == 0 && !text.contains("SUMMARY") && !text.contains("panicked") {
         let tail: String = text.lines().rev().take(6).collect::<Vec<_>>().join(" | ");
-        ctx.assume(&format!("libFuzzer stage '{}' skipped: fuzz build / start failed ({})", target, tail.chars().take(300).collect::<String>()));
+        ctx.assume(&format!("libFuzzer stage '{}' skipped: fuzz start failed ({})", target, tail.chars().take(300).collect::<String>()));
         return;
     }
     let cov = text.lines().rev().find_map(|l| l.split("cov: ").nth(1).and_then(|v| v.split_whitespace().next()).and_then(|x| x.parse::<u64>().ok())).unwrap_or(0);
@@ -103,7 +137,7 @@ fn run_target(ctx: &Ctx, prop: &'static str, target: &'static str, name: &'stati
         name: name.to_string(),
         kind: "coverage-guided",
         exhaustive: false,
-        rule: format!("libFuzzer target {} ({} executions from the honest-encoding corpus, seed from VERIF_SEED; only approximately reproducible — the saved input is the reproducible unit); in-target oracle: no panic, Ok(v) => encode(v) is a prefix of the input, decoder acceptance == independent schema decoder; non-trivial = inputs kept for new coverage", target, runs),
+        rule: format!("libFuzzer target {} (12 parallel processes x {} executions from the honest-encoding corpus, seeds from VERIF_SEED; only approximately reproducible — the saved input is the reproducible unit); in-target oracle: no panic, Ok(v) => encode(v) is a prefix of the input, decoder acceptance == independent schema decoder; non-trivial = inputs kept for new coverage", target, runs),
         stats,
         required: vec![],
     });
